@@ -3001,7 +3001,7 @@ static int report_value (
 {
 	int rval = 0;
 
-	if (it->sdisplay && it->itercnt % lp->iterskip == 0)
+	if (it->sdisplay && (lp->iterskip <= 0 || it->itercnt % lp->iterskip == 0))
 	{
 		char buffer[1024];
 
@@ -3012,7 +3012,7 @@ static int report_value (
 	else
 	{
 		/* make sure ILLstring_report is called at least every 10 iterations */
-		if (it->itercnt % (lp->iterskip / 10))
+		if (lp->iterskip < 10 || it->itercnt % (lp->iterskip / 10))
 		{
 			rval = ILLstring_report (NULL, &lp->O->reporter);
 		}
